@@ -42,6 +42,7 @@ type builderModel struct {
 	message   string
 	segs      []*ieSegment
 	allStores [][2]string // (addr path, value path) in order
+	fromHeap  bool        // message and IE segments read from the returned value (c13heap.go)
 }
 
 func localType(path string) string {
@@ -160,6 +161,10 @@ func buildBuilderModel(fn *ssa.Function) *builderModel {
 		m.segs = append(m.segs, cur[lp])
 	}
 	sort.Slice(m.segs, func(i, j int) bool { return m.segs[i].order < m.segs[j].order })
+	if m.class == "" || m.message == "" {
+		// not the statement form: read the message from the value the builder returns
+		heapBuilderModel(fn, m)
+	}
 	return m
 }
 
@@ -214,7 +219,7 @@ func appendedToIEList(p *core.Pather, arr ssa.Value) bool {
 }
 
 func c13(c *core.Ctx) map[string]interface{} {
-	c.Explanation = "Static builder-discipline and parameter-flow check of the gNB-side NGAP builders (C13). Decided: (R0.nilglobal) as for C03; (R13.triple) in every IE segment of every Build* function the IE id constant, the Present constant and the allocated alternative name the same IE of that message's IE set, the alternative's referenceFieldValue equals the id (with R3.tag), and the segment is appended to the message; (R13.class) pdu.Present, the allocated outcome, the procedure code, Value.Present and the allocated message agree with each other and with the elementary-procedure table of TS 38.413 9.4.4 (code, class, criticality); (R13.wrap) for the build-and-encode wrappers of tglib/packet.go: the wrapper hands its parameters to the builder in order and returns ngap.Encoder's result unchanged, the builder stores each identifier parameter unconverted in the IE of its role (AMF-UE-NGAP-ID, RAN-UE-NGAP-ID, NAS-PDU, PDUSessionID, gNB id/length/name, transport address via IPAddressToNgap) and nowhere else; (R13.ie) the messages main sends contain every mandatory IE of TS 38.413 9.2 exactly once with the tabulated criticality; (R13.plmn) PLMN identities in the builders behind the wrappers come from TestPlmn (the PLMN announced at NG Setup) - the hard-coded PLMN of BuildHandoverNotify is a listed known finding. (R13.pure) the builders and wrappers compute from their arguments and from TestPlmn (written only by BuildNGSetupRequest) alone: no other package-level cache, skeleton or scratch state is reachable from them, so the values found in an encoding are those of this call and not of an earlier one. (R11.plmn, shared with C11) BuildNGSetupRequest remembers the caller's PLMN in TestPlmn and every PLMN field of the NG Setup Request is TestPlmn. NOT decided: that encoding succeeds for every in-range argument (C03); PLMNs of builders no wrapper uses. (components) the rule set of C03 (APER encoder) is run as part of this check: the arguments are found in the encoding only if the encoder is right."
+	c.Explanation = "Static builder-discipline and parameter-flow check of the gNB-side NGAP builders (C13). Decided: (R0.nilglobal) as for C03; (R13.triple) in every IE segment of every Build* function the IE id constant, the Present constant and the allocated alternative name the same IE of that message's IE set, the alternative's referenceFieldValue equals the id (with R3.tag), and the segment is appended to the message; (a builder that is not written as stores through an IE variable followed by append - nested composite literals, the IE list as one slice literal - is folded by the abstract evaluator and the message is read from the value it returns; R13.class, R13.triple and R13.ie then read that) (R13.class) pdu.Present, the allocated outcome, the procedure code, Value.Present and the allocated message agree with each other and with the elementary-procedure table of TS 38.413 9.4.4 (code, class, criticality); (R13.wrap) for the build-and-encode wrappers of tglib/packet.go: the wrapper hands its parameters to the builder in order and returns ngap.Encoder's result unchanged, the builder stores each identifier parameter unconverted in the IE of its role (read from the builder's stores, or - when the message is put together by a helper or as a literal - from the message the folded builder returns, where the parameter is looked for by name on every path) (AMF-UE-NGAP-ID, RAN-UE-NGAP-ID, NAS-PDU, PDUSessionID, gNB id/length/name, transport address via IPAddressToNgap) and nowhere else; (R13.ie) the messages main sends contain every mandatory IE of TS 38.413 9.2 exactly once with the tabulated criticality; (R13.plmn) PLMN identities in the builders behind the wrappers come from TestPlmn (the PLMN announced at NG Setup) - the hard-coded PLMN of BuildHandoverNotify is a listed known finding. (R13.pure) the builders and wrappers compute from their arguments and from TestPlmn (written only by BuildNGSetupRequest) alone: no other package-level cache, skeleton or scratch state is reachable from them, so the values found in an encoding are those of this call and not of an earlier one. (R11.plmn, shared with C11) BuildNGSetupRequest remembers the caller's PLMN in TestPlmn and every PLMN field of the NG Setup Request is TestPlmn. NOT decided: that encoding succeeds for every in-range argument (C03); PLMNs of builders no wrapper uses. (components) the rule set of C03 (APER encoder) is run as part of this check: the arguments are found in the encoding only if the encoder is right."
 	c.Assumptions = []string{"TS 38.413 9.2 IE tables for the 7 messages main sends were transcribed by hand"}
 	r0nilglobal(c, ngapEntries(c)...)
 	s := buildSchema(c)
@@ -537,6 +542,15 @@ func r13wrap(c *core.Ctx, models map[string]*builderModel) {
 				c.Check(ok, R, bkey, m.fn.Pos(), "reaches GTPTunnel.TransportLayerAddress := IPAddressToNgap(ipv4, \"\") through the response transfer", "the GTP tunnel address parameter of %s must reach ngapConvert.IPAddressToNgap(ipv4, \"\") in the response transfer: %s", w.builder, why)
 				continue
 			}
+			if !(len(hits) >= 1 && len(other) == 0) {
+				// the statements are not in the form read above (the message is put together by a helper, or as
+				// a literal): decide on the message the builder returns, parameter by name (c13heap.go)
+				if ok, detail, usable := heapRoleCheck(m.fn, pi, role); usable {
+					c.Check(ok, R, bkey, m.fn.Pos(), "on every path the returned message holds the parameter, unconverted, in the IE of its role and nowhere else",
+						"parameter %d of %s (%s) must be stored unconverted in the IE of its role and nowhere else: %s", i, w.builder, role, detail)
+					continue
+				}
+			}
 			c.Check(len(hits) >= 1 && len(other) == 0, R, bkey, m.fn.Pos(), fmt.Sprintf("stored unconverted in %d IE(s) of its role", len(hits)), "parameter %d of %s (%s) must be stored unconverted in the IE of its role and nowhere else; role stores: %v, other uses: %v", i, w.builder, role, hits, other)
 		}
 	}
@@ -628,6 +642,8 @@ func ipv4Reaches(fn *ssa.Function, idx, depth int, top bool) (bool, string) {
 			// the callee's result must be kept
 			v, _ := ci.(*ssa.Call)
 			kept := false
+			// a helper that puts the whole message together: its result is the builder's message
+			wholeMsg := callee.Signature.Results().Len() == 1 && strings.HasSuffix(callee.Signature.Results().At(0).Type().String(), "ngapType.NGAPPDU")
 			refs := core.Referrers(v)
 			for k := 0; k < len(refs); k++ {
 				switch x := refs[k].(type) {
@@ -637,11 +653,11 @@ func ipv4Reaches(fn *ssa.Function, idx, depth int, top bool) (bool, string) {
 					refs = append(refs, core.Referrers(x)...)
 				case *ssa.Store:
 					ap := p.Path(x.Addr)
-					if !top || strings.HasSuffix(ap, "Transfer") {
+					if !top || strings.HasSuffix(ap, "Transfer") || wholeMsg {
 						kept = true
 					}
 				case *ssa.Call, *ssa.Return, *ssa.MakeInterface, *ssa.Extract:
-					if !top {
+					if !top || wholeMsg {
 						kept = true
 					}
 				}
